@@ -6,10 +6,10 @@ use crate::parser::value::{numeric, unicode_range_inner};
 use crate::value::{ListSeparator, Operator};
 use nom::Parser;
 use nom::branch::alt;
-use nom::bytes::complete::{is_not, tag};
-use nom::character::complete::{char, none_of, one_of};
+use nom::bytes::complete::{is_not, tag, take};
+use nom::character::complete::{char, one_of};
 use nom::combinator::{
-    cond, into, map, map_opt, not, opt, peek, recognize, value,
+    cond, into, map, map_opt, not, opt, peek, recognize, value, verify,
 };
 use nom::error::context;
 use nom::multi::{fold_many0, many0, separated_list0, separated_list1};
@@ -81,8 +81,13 @@ pub fn single(input: Span) -> PResult<Value> {
             alt((into(numeric), string_or_call)).parse(input)
         }
         Some(b'(') => {
-            let (end, _) = delimited(tag("("), none_of(")"), opt(tag(")")))
-                .parse(input)?;
+            // Take one byte (not a char, the input may be invalid utf-8).
+            let (end, _) = delimited(
+                tag("("),
+                verify(take(1usize), |b: &Span| b.fragment() != b")"),
+                opt(tag(")")),
+            )
+            .parse(input)?;
             let pos = input.up_to(&end);
             Err(nom_err("Parentheses aren't allowed in plain CSS.", pos))
         }
